@@ -19,7 +19,8 @@ empty tensors, the model does not describe that), constructor guard `Cfg.valid` 
 
 * recursion clause      : `par_eq_seq_integrate`, `par_eq_seq`, `par_eq_seq_init` — every frame count, no hypothesis;
 * chunk invariance      : `chunk_invariant_two`, `chunk_invariant` (exact, unit increments), `chunk_invariant_rot_cov` (no hypothesis),
-                          §7 `chunk_two_general` / `chunk_two_every_stream` (every increment, explicit defect and bound);
+                          §7 `chunk_two_general` / `chunk_two_every_stream` (every increment, explicit defect and bound, one cut),
+                          §11 `chunk_list_defect_bound` / `chunk_list_every_stream` (any number of cuts);
 * rank equivalence      : carried by the HARNESS (rank-1/2/3 calls bit-identical on the real code; `shape` stream ties `_check` and the
                           rank assertion to `checkShape` / `rankOk`); `forwardItem` is defined as validate-lift-call, the
                           consequences (`rank_lift_equiv`, `rank_equiv_H/FH`, `rank_assert`) are in `Lemmas/ImuGlue.lean`;
@@ -657,6 +658,71 @@ example : ∃ (R0 : Quat ℝ) (fr : Nat → Frame ℝ), R0.normSq = 1 ∧ (∀ k
       have : k = 0 := by omega
       subst this
       simp only [seqR, Quat.mul_one']⟩
+
+
+/-! ## 11. any number of cuts, every increment (pass 7) -/
+
+/-- **Any number of cuts, every increment, quantitative.** The chunks `rs.reverse` (each `≥ 1` frames) have been fed to the
+object, then a chunk of `m` frames: frame `j` of that last call against frame `rs.sum + j` of the single call on the whole
+stream.  Unit start, every increment's squared norm within `ε` of 1, nothing else assumed: rotations equal, velocity within
+`K·(#chunks)·Σ|dt|‖a‖`, position within `K·(#chunks)·ΣΣ…`, `K = 3η + 3η²`, `η = (1+ε)^(total frames) − 1`.  (Every frame of a
+chunked run is a frame of the last chunk of a prefix of the chunk list, so this covers the whole run.) -/
+theorem chunk_list_defect_bound (cfg : Cfg ℝ) (hr : cfg.reset = false) (hp : cfg.propCov = true) (st : State ℝ)
+    (hR0 : st.rot.normSq = 1) (fr : Nat → Frame ℝ) (rs : List Nat) (hrs : ∀ y ∈ rs, 1 ≤ y) (m : Nat) (ε : ℝ) (hε : 0 ≤ ε)
+    (hu : ∀ i, i < rs.sum + m → |1 - (dr cfg.eps (fr i)).normSq| ≤ ε) (j : Nat) (hj : j < m) :
+    let r2 := call cfg (stAfterR cfg st fr rs) none (fun i => fr (rs.sum + i)) m
+    let r := call cfg st none fr (rs.sum + m)
+    let K := 3 * ((1 + ε) ^ (rs.sum + m) - 1) + 3 * ((1 + ε) ^ (rs.sum + m) - 1) ^ 2
+    (outAt r.outs (rs.sum + j)).rot = (outAt r2.outs j).rot ∧
+    ((outAt r.outs (rs.sum + j)).vel.sub (outAt r2.outs j).vel).norm
+      ≤ K * ((rs.length : ℝ) + 1) * sumA cfg.eps cfg.g st.rot fr 0 (rs.sum + (j+1)) ∧
+    ((outAt r.outs (rs.sum + j)).pos.sub (outAt r2.outs j).pos).norm
+      ≤ K * ((rs.length : ℝ) + 1) * sumP cfg.eps cfg.g st.rot fr 0 (rs.sum + (j+1)) := by
+  intro r2 r K
+  have h1 : (1:ℝ) ≤ 1 + ε := by linarith
+  have hη : 0 ≤ (1 + ε) ^ (rs.sum + m) - 1 := by have := one_le_pow₀ h1 (n := rs.sum + m); linarith
+  have hK0 : 0 ≤ K := by positivity
+  have hK : ∀ m' j', m' + j' < rs.sum + m →
+      (eDef cfg.eps cfg.g st.rot fr m' j').norm ≤ K * (aSeq cfg.eps cfg.g st.rot fr (m' + j')).norm := by
+    intro m' j' h
+    have e : m' + (rs.sum + m - m') = rs.sum + m := by omega
+    have := eDef_bound cfg.eps cfg.g st.rot fr m' (rs.sum + m - m') ε hε hR0 (by rw [e]; exact hu) j' (by omega)
+    rw [e] at this
+    exact this
+  obtain ⟨i1, i2, i3⟩ := stAfterR_bound cfg hr hp st fr (rs.sum + m) K hK0 hK rs hrs (by omega)
+  have hstep := step_defect cfg.eps cfg.g st (stAfterR cfg st fr rs) fr rs.sum m K (rs.length : ℝ) hK0 (Nat.cast_nonneg _)
+    (fun j' hj' => hK rs.sum j' (by omega)) i1 i2 i3 (j+1) (by omega)
+  have o2 := par_eq_seq cfg (stAfterR cfg st fr rs) (fun i => fr (rs.sum + i)) m j hj
+  have o1 := par_eq_seq cfg st fr (rs.sum + m) (rs.sum + j) (by omega)
+  show (outAt (call cfg st none fr (rs.sum + m)).outs (rs.sum + j)).rot = (outAt (call cfg (stAfterR cfg st fr rs) none _ m).outs j).rot ∧ _
+  rw [o1, o2]
+  exact hstep
+
+/-- … and for EVERY stream of the model (`0 ≤ eps ≤ 1`): `ε = eps⁶` -/
+theorem chunk_list_every_stream (cfg : Cfg ℝ) (hr : cfg.reset = false) (hp : cfg.propCov = true) (h0 : 0 ≤ cfg.eps)
+    (h1 : cfg.eps ≤ 1) (st : State ℝ) (hR0 : st.rot.normSq = 1) (fr : Nat → Frame ℝ) (rs : List Nat) (hrs : ∀ y ∈ rs, 1 ≤ y)
+    (m j : Nat) (hj : j < m) :
+    let r2 := call cfg (stAfterR cfg st fr rs) none (fun i => fr (rs.sum + i)) m
+    let r := call cfg st none fr (rs.sum + m)
+    let K := 3 * ((1 + cfg.eps ^ 6) ^ (rs.sum + m) - 1) + 3 * ((1 + cfg.eps ^ 6) ^ (rs.sum + m) - 1) ^ 2
+    (outAt r.outs (rs.sum + j)).rot = (outAt r2.outs j).rot ∧
+    ((outAt r.outs (rs.sum + j)).vel.sub (outAt r2.outs j).vel).norm
+      ≤ K * ((rs.length : ℝ) + 1) * sumA cfg.eps cfg.g st.rot fr 0 (rs.sum + (j+1)) ∧
+    ((outAt r.outs (rs.sum + j)).pos.sub (outAt r2.outs j).pos).norm
+      ≤ K * ((rs.length : ℝ) + 1) * sumP cfg.eps cfg.g st.rot fr 0 (rs.sum + (j+1)) :=
+  chunk_list_defect_bound cfg hr hp st hR0 fr rs hrs m (cfg.eps ^ 6) (by positivity)
+    (fun i _ => dr_near_unit cfg.eps h0 h1 (fr i)) j hj
+
+/-- non-vacuity: the Taylor-band stream of §7 cut into chunks `2 | 1 | 3` then a chunk of 4 frames, frame 2 of it -/
+example : ∃ (cfg : Cfg ℝ) (st : State ℝ) (fr : Nat → Frame ℝ) (rs : List Nat) (m j : Nat),
+    cfg.reset = false ∧ cfg.propCov = true ∧ 0 ≤ cfg.eps ∧ cfg.eps ≤ 1 ∧ st.rot.normSq = 1 ∧ (∀ y ∈ rs, 1 ≤ y) ∧ j < m ∧
+    rs.length = 3 := by
+  refine ⟨⟨(2:ℝ)^(-52:ℤ), ⟨0, 0, -9.81⟩, false, true, false⟩, State.fresh ⟨1, 2, 3⟩ ⟨0.6, 0, 0, 0.8⟩ ⟨0, 1, 0⟩,
+    fun _ => ⟨1, ⟨(2:ℝ)^(-60:ℤ), 0, 0⟩, ⟨0.1, 0.2, 9.7⟩, none, ⟨1e-5, 1e-5, 1e-5⟩, ⟨6e-3, 6e-3, 6e-3⟩⟩, [3, 1, 2], 4, 2,
+    rfl, rfl, by positivity, ?_, ?_, by decide, by norm_num, rfl⟩
+  · show (2:ℝ)^(-52:ℤ) ≤ 1
+    rw [_root_.zpow_neg]; exact inv_le_one_of_one_le₀ (by norm_num)
+  · simp only [State.fresh]; lie_unfold; norm_num
 
 
 /-! ## non-vacuity of the hypotheses -/
